@@ -136,6 +136,11 @@ def main(tier):
         S, A, F = mkdir(d + '/src'), mkdir(d + '/ao'), mkdir(d + '/fm')
         write(S + '/u.as', text)
         r = tc.aldor([q, '-Fao', '-Ffm', '-Fc', '-Flsp', '-Fmain', 'u.as'], S, timeout=300)
+        if r.timeout:
+            # -Q9 (no inlining limit) does not finish on some units; compile time is not a property of the saved forms
+            out['noverdict'] = 'compilation at %s exceeded the time limit' % q
+            shutil.rmtree(d, ignore_errors=True)
+            return j, out
         if r.rc != 0:
             out['problems'].append(('compile-from-source', r.text()[-300:]))
             return j, out
@@ -187,6 +192,9 @@ def main(tier):
         (name, text), q = j
         if out is None:
             ck.cut('unit not processed')
+            continue
+        if out.get('noverdict'):
+            ck.cut('%s: %s' % (name, out['noverdict']))
             continue
         ck.count(6)
         if not out['problems']:
